@@ -2,7 +2,7 @@
    Only property theorems live here: each is closed by [exact], pinned by
    [Check ... : statement] and followed by [Print Assumptions]. *)
 From Coq Require Import List NArith Permutation.
-From Echo Require Import Base.FinMap Base.Bytes Model.Root Proofs.RootProofs Proofs.RootProofs2 Proofs.RootProofs3.
+From Echo Require Import Base.FinMap Base.Bytes Model.Root Proofs.RootProofs Proofs.RootProofs2 Proofs.RootProofs3 Proofs.RootProofs4 Proofs.RootProofs5.
 Import ListNotations.
 Open Scope N_scope.
 
@@ -106,19 +106,53 @@ Check acc_agrees : forall s r,
   wf_state s = true -> acc_root_preimage (from_state s) r = root_preimage s r.
 Print Assumptions acc_agrees.
 
-(* ... and so does any accumulator whose tables represent the state (the form needed for
-   accumulators obtained by applying ops; that ops preserve [Rep] is checked by correspondence and
-   by the implementation oracle only: acc_refines_store is NOT proved). *)
-Theorem acc_agrees_any_representation_partial : forall s a r,
+(* Op sequences: whenever apply_ops_to_state accepts a sequence (returns Ok, portal invariants
+   included), SnapshotAccumulator::apply_ops on the tables of the pre-state does not panic and its
+   state root is the state root of the post-state. *)
+Theorem acc_refines_store : forall s ops s',
+  wf_state s = true -> apply_ops s ops = (None, s') ->
+  exists a', acc_apply (from_state s) ops = Some a' /\
+             forall r, acc_root_preimage a' r = root_preimage s' r.
+Proof. exact acc_refines_store_w. Qed.
+Check acc_refines_store : forall s ops s',
+  wf_state s = true -> apply_ops s ops = (None, s') ->
+  exists a', acc_apply (from_state s) ops = Some a' /\
+             forall r, acc_root_preimage a' r = root_preimage s' r.
+Print Assumptions acc_refines_store.
+
+(* the underlying invariant: any accumulator whose tables represent a state hashes like it *)
+Theorem acc_agrees_any_representation : forall s a r,
   wf_state s = true -> Rep a s -> acc_root_preimage a r = root_preimage s r.
 Proof. exact (fun s a r W R => acc_agrees_rep s W a R r). Qed.
-Check acc_agrees_any_representation_partial : forall s a r,
+Check acc_agrees_any_representation : forall s a r,
   wf_state s = true -> Rep a s -> acc_root_preimage a r = root_preimage s r.
-Print Assumptions acc_agrees_any_representation_partial.
+Print Assumptions acc_agrees_any_representation.
 
 Example acc_agrees_on_former_f2_witness :
   wf_state f2_s = true /\ acc_root_preimage (from_state f2_s) f2_root = root_preimage f2_s f2_root.
 Proof. split; [vm_compute; reflexivity|exact f2_witness_agrees]. Qed.
+
+(* an accepted op sequence on the two-instance example: new node, new edge, attachment, a fresh
+   portal with its child instance, delete + re-create of an attached edge *)
+Example acc_refines_store_nonvacuous :
+  let ops := [UpsertNode 1 12 3; UpsertEdge 1 (mkEdge 22 11 12 4);
+              SetAtt (node_alpha 1 12) (Some (Atom 9 [7]));
+              OpenPortal (node_alpha 1 10) 5 50 (PEmpty 6);
+              DeleteEdge 1 10 20; UpsertEdge 1 (mkEdge 20 10 12 8)] in
+  fst (apply_ops ex_s1 ops) = None /\
+  snd (apply_ops ex_s1 ops) <> ex_s1 /\
+  skeleton (reach_content (snd (apply_ops ex_s1 ops)) ex_root) = [(3%nat, 2%nat); (1%nat, 0%nat); (1%nat, 0%nat)].
+Proof. cbv zeta. split; [vm_compute; reflexivity|split; [vm_compute; discriminate|vm_compute; reflexivity]]. Qed.
+
+(* The well-formedness hypothesis above is met by every state that can be built: any script of
+   GraphStore / WarpState API calls from the empty state, and any apply_ops_to_state on top of a
+   well-formed state (whether it returns Ok or leaves a partially applied patch behind on Err). *)
+Theorem api_states_well_formed : forall l ops,
+  wf_state (build l) = true /\ wf_state (snd (apply_ops (build l) ops)) = true.
+Proof. exact (fun l ops => conj (build_wf_w l) (apply_ops_wf_w (build l) ops (build_wf_w l))). Qed.
+Check api_states_well_formed : forall l ops,
+  wf_state (build l) = true /\ wf_state (snd (apply_ops (build l) ops)) = true.
+Print Assumptions api_states_well_formed.
 
 (* Non-vacuity. ex_s1 / ex_s2: two instances linked by a portal on an edge slot; ex_s2 is built in
    another order and carries an unreachable node with an edge into the reachable part, orphan
